@@ -118,6 +118,12 @@ pub fn dict0() -> GDict {
     // two definitions that share a name (different pair, different type): a name identifies nothing, the pair does
     d.add(GDef { code: 310, vendor: Some(111), name: "Shared-Name".into(), ty: T_U64, m: true });
     d.add(GDef { code: 311, vendor: None, name: "Shared-Name".into(), ty: T_UTF8, m: false });
+    // different texts with the same 32-bit value under the string hashes people reach for (FNV-1a, FNV-1, djb2, sdbm, x31,
+    // CRC-32, Murmur3, a byte sum): a name is compared as text, whatever index is kept on the side
+    for (k, (x, y)) in colliding_names().into_iter().enumerate() {
+        d.add(GDef { code: 400 + 2 * k as u32, vendor: None, name: x, ty: T_U32, m: true });
+        d.add(GDef { code: 401 + 2 * k as u32, vendor: if k % 2 == 0 { Some(99) } else { None }, name: y, ty: T_UTF8, m: false });
+    }
     d.add(GDef { code: 4294967295, vendor: None, name: "MaxCode".into(), ty: T_OCT, m: false });
     d.add(GDef { code: 0, vendor: Some(0), name: "Zero".into(), ty: T_U64, m: true });
     d.add(GDef { code: 200, vendor: None, name: "Odd".into(), ty: T_UNKNOWN, m: false });
@@ -133,6 +139,84 @@ pub fn dict0() -> GDict {
     d.add(GDef { code: 65537, vendor: None, name: "Alias16".into(), ty: T_U64, m: true });
     d.add(GDef { code: 16777225, vendor: None, name: "Alias24".into(), ty: T_OCT, m: false });
     d
+}
+
+fn colliding_names() -> Vec<(String, String)> {
+    fn fnv1a(b: &[u8]) -> u32 {
+        b.iter().fold(0x811c9dc5u32, |h, c| (h ^ *c as u32).wrapping_mul(0x01000193))
+    }
+    fn fnv1(b: &[u8]) -> u32 {
+        b.iter().fold(0x811c9dc5u32, |h, c| h.wrapping_mul(0x01000193) ^ *c as u32)
+    }
+    fn djb2(b: &[u8]) -> u32 {
+        b.iter().fold(5381u32, |h, c| h.wrapping_mul(33).wrapping_add(*c as u32))
+    }
+    fn sdbm(b: &[u8]) -> u32 {
+        b.iter().fold(0u32, |h, c| (*c as u32).wrapping_add(h << 6).wrapping_add(h << 16).wrapping_sub(h))
+    }
+    fn x31(b: &[u8]) -> u32 {
+        b.iter().fold(0u32, |h, c| h.wrapping_mul(31).wrapping_add(*c as u32))
+    }
+    fn crc32(b: &[u8]) -> u32 {
+        let mut c = 0xffff_ffffu32;
+        for x in b {
+            c ^= *x as u32;
+            for _ in 0..8 {
+                c = if c & 1 != 0 { (c >> 1) ^ 0xedb8_8320 } else { c >> 1 };
+            }
+        }
+        !c
+    }
+    fn murmur3(b: &[u8]) -> u32 {
+        let mut h = 0u32;
+        let mut chunks = b.chunks_exact(4);
+        for c in &mut chunks {
+            let mut k = u32::from_le_bytes([c[0], c[1], c[2], c[3]]);
+            k = k.wrapping_mul(0xcc9e2d51).rotate_left(15).wrapping_mul(0x1b873593);
+            h = (h ^ k).rotate_left(13).wrapping_mul(5).wrapping_add(0xe6546b64);
+        }
+        let rem = chunks.remainder();
+        let mut k = 0u32;
+        for (i, x) in rem.iter().enumerate() {
+            k |= (*x as u32) << (8 * i);
+        }
+        if !rem.is_empty() {
+            k = k.wrapping_mul(0xcc9e2d51).rotate_left(15).wrapping_mul(0x1b873593);
+            h ^= k;
+        }
+        h ^= b.len() as u32;
+        h ^= h >> 16;
+        h = h.wrapping_mul(0x85ebca6b);
+        h ^= h >> 13;
+        h = h.wrapping_mul(0xc2b2ae35);
+        h ^ (h >> 16)
+    }
+    fn bytesum(b: &[u8]) -> u32 {
+        b.iter().map(|c| *c as u32).sum()
+    }
+    let hs: [(&str, fn(&[u8]) -> u32); 8] = [("Fa", fnv1a), ("Fb", fnv1), ("Dj", djb2), ("Sd", sdbm), ("Jx", x31), ("Cr", crc32), ("Mu", murmur3), ("Su", bytesum)];
+    let mut out = vec![];
+    for (tag, h) in hs {
+        let mut seen: std::collections::HashMap<u32, u32> = std::collections::HashMap::new();
+        // (letters, not digits: polynomial hashes and CRCs do not collide on texts that differ in a few low bits only)
+        let word = |i: u32| -> String {
+            let mut x = (i as u64 + 1).wrapping_mul(0x9E37_79B9_7F4A_7C15);
+            let mut w = String::new();
+            for _ in 0..10 {
+                w.push((b"abcdefghijklmnopqrstuvwxyzABCDEFGHIJKLMNOPQRSTUVWXYZ"[(x % 52) as usize]) as char);
+                x /= 52;
+            }
+            w
+        };
+        for i in 0..1_000_000u32 {
+            let n = format!("Acme-{}-{}", tag, word(i));
+            if let Some(j) = seen.insert(h(n.as_bytes()), i) {
+                out.push((format!("Acme-{}-{}", tag, word(j)), n));
+                break;
+            }
+        }
+    }
+    out
 }
 
 pub fn emit_dict(w: &mut dyn Write, d: &GDict) {
@@ -1984,6 +2068,27 @@ fn gen_c06(o: &mut Out, r: &mut Rng, d: &GDict, tier: &str) {
             f[20..24].copy_from_slice(&[0x00, 0xff, 0xff, 0xf0]);
             refused.push(f);
         }
+        // a short frame that ends where the data of its last AVP should begin, behind a longer frame (whatever a buffer still
+        // holds of the longer one is not part of the short one)
+        {
+            let mut longest = message(r, d, 4, 1);
+            while longest.avps.len() < 2 {
+                longest = message(r, d, 4, 1);
+            }
+            let longest = longest.encode(&mut None);
+            for (ty, claim) in [(T_U32, 8u32), (T_U32, 12), (T_U64, 8), (T_U64, 16)] {
+                let code = d.by_type(ty).into_iter().find(|x| x.vendor.is_none()).map(|x| x.code).unwrap_or(14);
+                let mut f = good[0][..20].to_vec();
+                f.extend(code.to_be_bytes());
+                f.push(0);
+                f.extend(&claim.to_be_bytes()[1..]);
+                f[1] = 0;
+                f[2] = 0;
+                f[3] = 28;
+                frame_lists.push(vec![longest.clone(), f.clone(), good[1].clone()]);
+                frame_lists.push(vec![longest.clone(), longest.clone(), f, longest.clone()]);
+            }
+        }
         for (k, x) in refused.iter().enumerate() {
             frame_lists.push(vec![good[k % good.len()].clone(), x.clone(), good[(k + 1) % good.len()].clone()]);
             frame_lists.push(vec![x.clone(), good[k % good.len()].clone()]);
@@ -2462,9 +2567,25 @@ fn gen_c08(o: &mut Out, r: &mut Rng, d: &GDict, tier: &str, cuts: bool) {
             }
             // one malformed frame at every position (several kinds of malformation)
             for k in 0..nreq {
-                for kind in 0..6 {
+                for kind in 0..8 {
                     let mut bad = rf.clone();
                     match kind {
+                        6 | 7 => {
+                            // a SHORT frame (shorter than most of what came before it on the connection) that ends where the
+                            // data of its last AVP should begin: an Unsigned32 / Unsigned64 AVP that is all header (6), or that
+                            // announces data the frame does not have (7). Whatever a buffer still holds of earlier, longer
+                            // frames is not part of this one
+                            let ty = if k % 2 == 0 { T_U32 } else { T_U64 };
+                            let code = d.by_type(ty).into_iter().find(|x| x.vendor.is_none()).map(|x| x.code).unwrap_or(14);
+                            let mut f = bad[k][..20].to_vec();
+                            f.extend(code.to_be_bytes());
+                            f.push(0);
+                            f.extend(&(if kind == 6 { 8u32 } else if ty == T_U32 { 12 } else { 16 }).to_be_bytes()[1..]);
+                            f[1] = 0;
+                            f[2] = 0;
+                            f[3] = 28;
+                            bad[k] = f;
+                        }
                         4 | 5 => {
                             // the last AVP's padding is missing and the message length is short by it (4: an OctetString of
                             // 3 octets appended without its padding octet; 5: of 5 octets without its three): a frame whose
@@ -3442,6 +3563,50 @@ fn gen_c14(o: &mut Out, r: &mut Rng, tier: &str) {
         }
         ls
     };
+    // codes at the edges of every table size someone might choose (2^k - 1, 2^k, 2^k + 1), without and with a vendor, added
+    // one by one and through a document, into an empty dictionary and on top of the built-in one: each is found under
+    // exactly its pair, and its neighbours are not
+    for (mode, base) in [(0, 0), (1, 0), (0, 1), (1, 1)] {
+        o.case(&format!("boundary codes mode={} base={}", mode, base));
+        o.line("dreset");
+        if base == 1 {
+            o.line("dbuiltin");
+        }
+        let mut keys: Vec<(u32, Option<u32>)> = vec![];
+        for k in 3..=32u32 {
+            let p: u64 = 1 << k;
+            for c in [p - 1, p, p + 1] {
+                if c <= 4294967295 && !keys.iter().any(|x: &(u32, Option<u32>)| x.0 == c as u32) {
+                    keys.push((c as u32, None));
+                    keys.push((c as u32, Some(*r.pick(&[0u32, 1, 10415, 4294967295]))));
+                }
+            }
+        }
+        if mode == 1 {
+            o.line("doc_begin");
+            o.line(&format!("app 4 {}", hexd(b"Edges")));
+        }
+        for (i, (c, v)) in keys.iter().enumerate() {
+            let name = format!("Edge-{}-{}", c, i);
+            if mode == 0 {
+                o.line(&format!("dadd {} {} {} {} {}", c, vend(*v), hexd(name.as_bytes()), ty_name(i % 16), i % 2));
+            } else {
+                o.line(&doc_avp_line(&name, *c, *v, if i % 2 == 1 { Some("M") } else { Some("-") }, ty_name(i % 16)));
+            }
+        }
+        if mode == 1 {
+            o.line("doc_end load");
+        }
+        for (c, v) in &keys {
+            o.line(&format!("dget {} {}", c, vend(*v)));
+            o.line(&format!("dget {} {}", c, vend(if v.is_none() { Some(77) } else { Some(v.unwrap() ^ 1) })));
+            o.line(&format!("dtype {} {}", c, vend(*v)));
+            o.line(&format!("dname {} {}", c, vend(*v)));
+        }
+        for c in [5u32, 6, 10, 1022, 1026, 5000, 70000, 4294967290] {
+            o.line(&format!("dget {} -", c));
+        }
+    }
     let n_hist = if thorough { 20000 } else { 500 };
     for _ in 0..n_hist {
         o.case("dict-history");
@@ -3911,7 +4076,7 @@ fn gen_c16(o: &mut Out, r: &mut Rng, tier: &str, extra: &[String]) {
                         if let Some(rest) = n.strip_prefix("3GPP") { format!("TGPP{}", rest) } else if let Some(rest) = n.strip_prefix("TGPP") { format!("3GPP{}", rest) } else { format!("3GPP-{}", n) }
                     }
                 },
-                4 => names[k % names.len()][..names[k % names.len()].len().saturating_sub(1)].to_string(),
+                4 => { let mut c = names[k % names.len()].chars(); c.next_back(); c.as_str().to_string() }
                 5 => {
                     // a name that looks like a number: the decimal code of a definition, with or without decoration
                     let c = d.defs.iter().filter(|x| x.vendor.is_none()).map(|x| x.code).nth(k % 7).unwrap_or(1);
